@@ -876,6 +876,30 @@ fn falsify_monotone_sampled(fails: &mut Fails, r: &mut Rng, n: usize) {
 
 /// hostile contexts read from bytes: any claimed modulus, trace lengths up to 2^63: never a panic, and the level is
 /// the documented formula with negative values meaning 0 bits
+/// The level is capped by "the hash function's collision resistance": the published constant of every hasher must be
+/// half the number of bits of its digest (generic birthday bound), computed here from the serialised digest size.
+fn falsify_collision_resistance(fails: &mut Fails) {
+    use winter_crypto::{hashers::{Rp62_248, Rp64_256, RpJive64_256, Sha3_256}, Hasher};
+    use winter_utils::Serializable;
+    fn one<H: Hasher>(name: &str, digest_bits: u32, fails: &mut Fails) {
+        let d = H::hash(b"collision resistance");
+        let bytes = d.to_bytes().len() as u32;
+        // digests of field elements carry (modulus bits) per element, not 8 bits per byte: the caller passes the bit size
+        let want = digest_bits / 2;
+        fails.evals += 1;
+        if H::COLLISION_RESISTANCE != want || bytes * 8 < digest_bits {
+            fails.report("hasher collision resistance is not half the digest size", format!("{name}: digest {digest_bits} bits ({bytes} bytes)"),
+                         want.to_string(), H::COLLISION_RESISTANCE.to_string());
+        }
+    }
+    one::<Blake3_256<f64::BaseElement>>("Blake3_256", 256, fails);
+    one::<Blake3_192<f64::BaseElement>>("Blake3_192", 192, fails);
+    one::<Sha3_256<f64::BaseElement>>("Sha3_256", 256, fails);
+    one::<Rp64_256>("Rp64_256", 256, fails);
+    one::<RpJive64_256>("RpJive64_256", 256, fails);
+    one::<Rp62_248>("Rp62_248", 248, fails);
+}
+
 fn falsify_hostile(fails: &mut Fails, r: &mut Rng, n: usize) {
     for i in 0..n {
         let p = if i % 3 == 0 { gen_p_threshold(r) } else { gen_p(r) };
@@ -1012,6 +1036,7 @@ fn falsify(seed: u64, n: usize) {
         falsify_conj_grid(&mut fails, &tls_all, &[96, 128], 7);
     }
     falsify_proven_vectors(&mut fails);
+    falsify_collision_resistance(&mut fails);
     falsify_monotone_sampled(&mut fails, &mut r, n);
     falsify_hostile(&mut fails, &mut r, n);
     let pool = build_pool(&mut r, 6 + n / 3000);
